@@ -115,6 +115,17 @@ PROPS["C09"] = {
     "technique": "deterministic simulation with systematic crash-point enumeration (store writes and tokens-file operations) plus seeded schedules",
 }
 
+_RING_CLIENT_REAL = _RING_REAL + ["ring.Ring client (Get, GetAllHealthy, GetReplicationSetForOperation, ShuffleShard*, GetTokenRangesForInstance, counts, zones), default replication strategy"]
+PROPS["C01"] = {
+    "world": "ring", "level": "exploration", "quick_s": 25, "thorough_s": 600,
+    "rule": "one evaluation = one lifecycler-driven ring history (1..8 lifecyclers, zones, tiny token alphabet incl. 0, 1, 2, 2^32-3..2^32-1, stalls ageing heartbeats across the timeout, forgets, wipes) observed by a fresh ring client at every ring version and after every clock advance: every boundary key (token-1, token, token+1, 0, 2^32-1; at most 48 per version) x the four built-in operations is compared with the reference walk and quorum arithmetic written from the statement; single-instance registrations / removals are checked for locality; replication factor 1..5, zone-awareness on/off, 1..5 zones drawn per run; non-trivial = at least 3 instances and a lookup whose walk contained an extending or unhealthy instance; distinct = distinct released-task/action sequence hash among non-trivial runs",
+    "real": _RING_CLIENT_REAL, "stub": _RING_STUB + ["fresh ring clients read the observed descriptor from a static kv.Client"],
+    "assumptions": _ASSUME_COMMON + ["input-shaped half of the property (all 2^32 keys): keys are covered by boundary classes on reachable states, not enumerated (DESIGN.md section 6)", "zone-aware reading: an instance whose state extends the set is included but neither counts towards the replication factor nor occupies its zone", "ring versions in which two instances hold the same token (possible only after a wipe) are skipped"],
+    "level_text": "seeded exploration of reachable ring states and clock positions; every lookup is compared with an independent reference model; sampling, not proof",
+    "level_note": "trusted: simulator engine, the reference walk (60 lines) written from the statement",
+    "design_ref": "DESIGN.md section 5 C01",
+}
+
 HOOK_COMMITS = []
 
 _PENDING = "claimed in DESIGN.md; check not yet registered (implementation in progress)"
